@@ -65,8 +65,11 @@ func (s *Spark) WriteTable(agg *aggregation.TableAggregator, rowSorter, colSorte
 			termunicode.SparkWrite(&sb, s.Scaler.Scale(row.Value(colNames[j]), minVal, maxVal))
 		}
 
-		vFirst := s.Formatter(row.Value(colNames[0]), minVal, maxVal)
-		vLast := s.Formatter(row.Value(colNames[len(colNames)-1]), minVal, maxVal)
+		var vFirst, vLast string
+		if len(colNames) > 0 {
+			vFirst = s.Formatter(row.Value(colNames[0]), minVal, maxVal)
+			vLast = s.Formatter(row.Value(colNames[len(colNames)-1]), minVal, maxVal)
+		}
 		s.table.WriteRow(i+1, color.Wrap(color.Yellow, row.Name()), color.Wrap(color.BrightBlack, vFirst), sb.String(), color.Wrap(color.BrightBlack, vLast))
 
 		sb.Reset()
